@@ -129,15 +129,21 @@ pub fn scenario(seed: u64, kind: Kind, volume: u64, quiesce: bool) -> Made {
     if with_browse {
         w.browse(h, BROWSED);
     }
+    // host names as applications spell them (letter case is theirs), sometimes searched twice, stopped in another spelling
+    let wanted = *rng.pick(&["wanted.local.", "Wanted-Host.local.", "WANTED.local."]);
     if with_resolver {
-        w.resolve_hostname(h, "wanted.local.", None);
+        w.resolve_hostname(h, wanted, None);
+        if rng.chance(1, 3) {
+            w.run_for(300 + rng.below(2500));
+            w.resolve_hostname(h, &wanted.to_lowercase(), None);
+        }
     }
     let max_ttl = *rng.pick(&[2u32, 10, 60, 120]);
     let base_packets = 40 + rng.below(60);
     let packets = base_packets * volume;
     let gap = 20 + rng.below(200);
     let mut checkpoints = Vec::new();
-    let desc = format!("{kind:?} volume={volume} packets={packets} gap={gap}ms max_ttl={max_ttl} browse={with_browse} resolver={with_resolver} service={with_service} unsolicited={unsolicited} quiesce={quiesce}");
+    let desc = format!("{kind:?} volume={volume} packets={packets} gap={gap}ms max_ttl={max_ttl} browse={with_browse} resolver={with_resolver}({wanted}) service={with_service} unsolicited={unsolicited} quiesce={quiesce}");
     for n in 0..packets {
         let ttl = if rng.chance(1, 3) { max_ttl } else { 1 + rng.below(max_ttl as u64) as u32 };
         let m = foreign_packet(&mut rng, kind, n, ttl);
@@ -156,7 +162,7 @@ pub fn scenario(seed: u64, kind: Kind, volume: u64, quiesce: bool) -> Made {
             w.stop_browse(h, BROWSED);
         }
         if with_resolver {
-            w.stop_resolve_hostname(h, "wanted.local.");
+            w.stop_resolve_hostname(h, &if rng.chance(1, 2) { wanted.to_string() } else { wanted.to_uppercase().replace(".LOCAL.", ".local.") });
         }
         searches_open_at_end = false;
     }
